@@ -79,6 +79,8 @@ func mkV2(mk func(cells int) *dc.DualContouringV2) func(cells int) func(s sdf.SD
 var settings = []setting{
 	{"V1(rcond=default,lock=true)", mkV1(0, true)},
 	{"V1(rcond=0.1,lock=true)", mkV1(0.1, true)},
+	{"V1(rcond=1e-5,lock=true)", mkV1(1e-5, true)},
+	{"V1(rcond=1e-8,lock=true)", mkV1(1e-8, true)},
 	{"V2(default)", mkV2(func(c int) *dc.DualContouringV2 { return dc.NewDualContouringDefault(c) })},
 	{"V2(faraway=0.4,push=0.05)", mkV2(func(c int) *dc.DualContouringV2 { return dc.NewDualContouringV2(0.4, 0.05, 0, 1, 1e-4, 1000, c) })},
 }
@@ -156,6 +158,16 @@ func TestDualContouring(t *testing.T) {
 			a, b := shape.GenExact3(t, S, 1), shape.GenExact3(t, S, 1)
 			op := rapid.SampledFrom([]string{"union3", "diff3", "isect3"}).Draw(t, "op")
 			n = &shape.Node{Op: op, K: []*shape.Node{a, b}}
+		}
+		// far from the origin (survey / map coordinates): up to 1e7 model units away, i.e. coordinates
+		// a hundred million cells large
+		far := false
+		if kind != "aligned" && rapid.IntRange(0, 4).Draw(t, "far-away") == 0 {
+			far = true
+			off := func(l string) float64 {
+				return g.LogUniform(t, l, 1e3, 1e7) * S * float64(1-2*rapid.IntRange(0, 1).Draw(t, l+".neg"))
+			}
+			n = &shape.Node{Op: "xform3", I: []int{0, 0}, K: []*shape.Node{n}, P: []float64{0, 0, 1, 0, off("fx"), off("fy"), off("fz")}}
 		}
 		bl, err := shape.Build(n)
 		if err != nil {
@@ -286,7 +298,7 @@ func TestDualContouring(t *testing.T) {
 			fail("not-repeatable", fmt.Sprintf("a fresh renderer object produced a different triangle sequence (%d vs %d triangles; the first renderer had rendered another shape before: %v)", len(ts), len(ts3), reused))
 		}
 		rec.Add(fmt.Sprintf("dc:renderer-reused=%v", reused), 1)
-		rec.Case(len(ts) >= 20, ev.Key(st.name, n.String(), cells, m), "dc:"+st.name, "dc:"+kind)
+		rec.Case(len(ts) >= 20, ev.Key(st.name, n.String(), cells, m), "dc:"+st.name, "dc:"+kind, fmt.Sprintf("dc:far-from-origin=%v", far))
 		rec.Add("dc:triangles", int64(len(ts)))
 		rec.Sample("dc:"+st.name, map[string]any{"setting": st.name, "scene": n.String(), "cells": cells, "triangles": len(ts), "volume": r.Volume, "worst_vertex_distance_over_diag": worst / diag})
 	})
